@@ -485,11 +485,32 @@ def reshape(node: ir.Node, op, state: OptimizerState) -> ReturnValue:
     shape_value = state.get_shape_value(shape)
 
     if shape_value is None or input_shape is None:
-        return _propagate_shape_value(node, op, state)
+        return _propagate_shape_value_through_reshape(node, shape, op, state)
 
     # No need to check for special values like -1, 0, etc. here
     if _same_shape(input_shape, shape_value):
         return op.Identity(input)
+    return _propagate_shape_value_through_reshape(node, shape, op, state)
+
+
+def _propagate_shape_value_through_reshape(
+    node: ir.Node, shape: ir.Value, op, state: OptimizerState
+) -> ReturnValue:
+    """Propagates the symbolic shape value through a Reshape whose output is at most 1-D.
+
+    A symbolic shape value stands for a 1-D tensor: a Reshape into a higher rank
+    (e.g. [2] -> [2, 1]) must not carry it over, since consumers such as Gather index it
+    as a vector.
+    """
+    output_rank = None
+    if shape.shape is not None and shape.shape.rank() == 1 and isinstance(shape.shape[0], int):
+        output_rank = shape.shape[0]
+    else:
+        shape_const = _get_numpy_value(shape)
+        if shape_const is not None and shape_const.ndim == 1:
+            output_rank = shape_const.size
+    if output_rank is None or output_rank > 1:
+        return None
     return _propagate_shape_value(node, op, state)
 
 
